@@ -4,6 +4,7 @@ import "fmt"
 
 const keyAlphabet = "abcdefghijklmnopqrstuvwxyzABCDEFGHIJKLMNOPQRSTUVWXYZ0123456789_-./:#%&*+=~|^!$()[]{}<>,;'\"`\\"
 
+// (no Unicode white space or control characters: the store defines such keys as invalid)
 var multiByte = []string{"é", "中", "ß", "\xff", "\x80", "\xfe\x9c", "ü"}
 
 func genKeyBytes(r *Rng) []byte {
@@ -492,7 +493,27 @@ func genSeqPlan(prop string, seed uint64, tier string) *Plan {
 		for j := r.Range(0, 3); j > 0; j-- {
 			filler()
 		}
-		if len(grp) >= 3 && r.Bool(1, 2) {
+		if r.Bool(1, 3) {
+			// T3: the key that owns the shared tree slot (the one written last) is deleted - a delete
+			// of the slot owner is handled like any delete - and the chunk of the other key is
+			// collected, with or without merging: the other key must survive
+			A, B := grp[0], grp[1]
+			add(small(A))
+			filler()
+			add(small(B))
+			if r.Bool(1, 2) {
+				add(Op{Kind: "restart", DelSeed: uint32(r.U64())})
+			}
+			add(Op{Kind: "del", K: B})
+			add(Op{Kind: "restart", DelSeed: uint32(r.U64())})
+			add(Op{Kind: "gc", GCBucket: b, GCStart: 0, GCEnd: r.Pick(0, -1), GCDays: 0, Merge: r.Bool(1, 2)})
+			add(Op{Kind: "get", K: A})
+			add(Op{Kind: "get", K: B})
+			p.Extra["gcTemplate"] = 3
+			// (no random tail: once a colliding key has been deleted, later index rebuilds drop its
+			// tombstone and the recorded findings can act again)
+			nOps = 0
+		} else if len(grp) >= 3 && r.Bool(1, 2) {
 			A, B, C := grp[0], grp[1], grp[2]
 			add(small(A))
 			filler()
